@@ -132,9 +132,18 @@ func GenCase(prop string, regs []*Registration, r *Rng) *Case {
 	switch prop {
 	case "C04":
 		n := 1 + r.Intn(25)
+		hot := ""
+		if r.Chance(1, 5) {
+			// one method called many times: record slices grow past their capacity steps
+			hot = pickS(r, names)
+			n = 20 + r.Intn(30)
+		}
 		var ops []Op
 		for i := 0; i < n; i++ {
 			m := pickS(r, names)
+			if hot != "" && r.Chance(4, 5) {
+				m = hot
+			}
 			switch k := r.Intn(20); {
 			case k < 10:
 				ops = append(ops, Op{Kind: "call", Method: m, Seed: r.U64()})
